@@ -40,10 +40,12 @@ def main():
             continue
         sh("git apply %s" % patch, cwd=REPO)
         try:
-            code, out = sh("./check %s quick" % prop, cwd=ROOT)
+            # a change outside every listed statement that only the growth specification sees is re-run there
+            via_growth = meta.get("detected_by") == ["growth"]
+            code, out = sh("./check growth" if via_growth else "./check %s quick" % prop, cwd=ROOT)
         finally:
             sh("git checkout -- . && git clean -fdq", cwd=REPO)
-        whys = sorted(set(re.findall(r"violation: (.*)", out)))
+        whys = sorted(set(re.findall(r"violation: (.*)", out) + re.findall(r"^DEVIATION (.*?) vector=", out, re.M)))
         verdict = {1: "detected", 0: "MISSED", 2: "broken"}.get(code, "exit %d" % code)
         if code != 1:
             bad += 1
